@@ -317,7 +317,8 @@ impl StreamData {
             .unwrap_or_else(|idx| idx);
         
         let mut result_entries = Vec::new();
-        let max_count = count.unwrap_or(self.entries.len());
+        // A count of 0 means no limit, like no count at all
+        let max_count = count.filter(|c| *c > 0).unwrap_or(self.entries.len());
         
         for i in start_idx..self.entries.len() {
             if result_entries.len() >= max_count { break; }
